@@ -442,4 +442,13 @@ def _casts_of(b, e):
     return out
 
 
-RULES = [r1_dispatch, r2_alu, r3_failure_discipline, r4_determinism, r5_result, r6_layouts, r7_bounded_exp, r8_narrowing]
+def shared(ctx):
+    """'forward-only relative jumps', 'counted loops' and 'an improperly nested loop makes execution fail' are clauses of C10 whose structural form is decided by C11.R3
+    (pc only increases except for the guarded loop-back that decrements the remaining count), C11.R4 (a loop reaching beyond its enclosing loop is never pushed) and
+    C11.R5 (length guards before materialisation: 'length-bounded hashing and signature checking')."""
+    from rules.engine import core
+    from rules.props import c11
+    core.import_rules(ctx, [c11.r3_forward_pc, c11.r4_nesting, c11.r5_length_guards], "X11")
+
+
+RULES = [r1_dispatch, r2_alu, r3_failure_discipline, r4_determinism, r5_result, r6_layouts, r7_bounded_exp, r8_narrowing, shared]
